@@ -141,6 +141,9 @@ func (r *pathRun) run(fn *ssa.Function, args []pval) []pval {
 			paths[v] = path
 			return atomAt(path, x.Type())
 		case *ssa.UnOp:
+			if _, isAlloc := x.X.(*ssa.Alloc); isAlloc {
+				return AVal{}, false
+			}
 			if x.Op == token.MUL {
 				b := eval(x.X)
 				if b.K != 'o' {
